@@ -7,13 +7,18 @@ open Cao
 
 def semStep (args : List String) : String :=
   match args with
-  | ["run", m] =>
+  | "run" :: m :: _ =>
     match Module.ofTok? m with
     | none => "bad-op"
     | some m =>
-      let o := Sem.run m Gen.stdlib 100000
+      -- fuel bounds the nesting depth plus the iterations of the loops on one path: the
+      -- implementation side runs with a budget of 20000 instructions (>= 3 per iteration)
+      let o := Sem.run m Gen.stdlib 7500
       let gl := sortStrs ((o.globals.filter (fun p => !(decide (p.2 = OVal.nil)))).map (fun (n, v) => n ++ "=" ++ v.toTok))
-      o.result ++ " globals=[" ++ ",".intercalate gl ++ "] log=[" ++ "|".intercalate o.log ++ "]"
+      -- ` k1`: a value-producing card stood in statement position (known finding K1: the
+      -- implementation leaves such a value on the stack); ` k4`: a call with too few arguments
+      o.result ++ " globals=[" ++ ",".intercalate gl ++ "] log=[" ++ "|".intercalate o.log ++ "]" ++
+        (if o.stmtValue then " k1" else "") ++ (if o.fewArgs then " k4" else "")
   | _ => "bad-op"
 
 end Cao.Driver
